@@ -61,10 +61,14 @@ fn run_bin(args: &[&str]) -> (i32, String) {
         Some(e) => e,
         None => return (-2, String::new()),
     };
-    match std::process::Command::new(exe).args(args).env("NO_COLOR", "1").output() {
-        Ok(o) => (o.status.code().unwrap_or(-1), String::from_utf8_lossy(&o.stdout).to_string()),
-        Err(_) => (-2, String::new()),
+    // a spawn can fail for lack of resources when the machine is busy (EAGAIN): try again before giving up
+    for attempt in 0..8u64 {
+        match std::process::Command::new(&exe).args(args).env("NO_COLOR", "1").output() {
+            Ok(o) => return (o.status.code().unwrap_or(-1), String::from_utf8_lossy(&o.stdout).to_string()),
+            Err(_) => std::thread::sleep(std::time::Duration::from_millis(250 * (attempt + 1))),
+        }
     }
+    (-2, String::new())
 }
 
 pub fn run(args: &[String], out: &mut dyn Write) -> i32 {
